@@ -365,7 +365,7 @@ def expected_entries(root, contents, cwd_rel, kind, refs, sides, paths):
 def mkscratch():
     """(scratch_dir, repo_root, home) under a fresh temp dir (real paths, outside /repo and /verif)"""
     top = os.path.realpath(tempfile.mkdtemp(prefix='c17-'))
-    root = os.path.join(top, 'repo')
+    root = os.path.join(top, 'n1', 'n2', 'n3', 'n4', 'n5', 'n6', 'repo')   # nested: a cwd that escapes upwards stays in the scratch dir
     home = os.path.join(top, 'home')
     os.makedirs(root)
     os.makedirs(home)
